@@ -119,7 +119,8 @@ Theorem delete_partial_match_exact :
 Proof. exact (fun H0 hadd haddb names cstr _ => C07_proofs.delete_partial_removes_exactly H0 hadd haddb names cstr). Qed.
 
 (* concurrency at lock granularity: a lookup is two critical sections (RLock probe; Lock re-check and
-   create), every other call one.  For ANY hash of the tuple, any number of threads, any programs and
+   create), every other call one -- Collect included (QCollect): it holds the read lock until its last
+   send, so no deletion interleaves with it and what it delivers is the children of ONE state of the map.  For ANY hash of the tuple, any number of threads, any programs and
    any schedule of the sections: the calls ordered by their last section, with the results they
    returned, are a run of the plain map (linearizable); the invariant holds (one live child per tuple);
    the surviving children are exactly the map's (no lost or duplicated child); and the history
